@@ -98,7 +98,7 @@ Definition str (l : list Z) : val := VStr (map Z.to_N l).
 Definition stat_names : list val :=
   [str [99;111;117;110;116]; str [109;101;97;110]; str [115;116;100;100;101;118]; str [109;105;110]; str [109;97;120]].
 
-Definition describe_cols : list nat := [0%nat; 2%nat; 3%nat].
+Definition describe_cols : list nat := [0%nat; 1%nat; 2%nat; 3%nat].
 
 Definition run (c : val) : val :=
   match c with
